@@ -294,7 +294,11 @@ MODEL_CFGS = {
 
 
 # small configurations of which ALL behaviours are replayed on the real crate
-MODEL_ENUMS = {"C09": ["life"], "C14": ["life"]}
+MODEL_ENUMS = {
+    "C01": ["reuse"], "C02": ["post"], "C03": [], "C04": ["chan"], "C05": ["timers"], "C06": ["reuse"], "C07": ["edge"],
+    "C08": ["drop"], "C09": ["life", "post"], "C10": ["exec", "stream"], "C12": ["timers"], "C13": ["idle"], "C14": ["life"],
+    "C15": ["faults"], "C16": ["edge"],
+}
 
 
 def engine_model(prop, tier, seed, work):
